@@ -51,6 +51,29 @@ func (b *rwBuf) Write(p []byte) (int, error) {
 
 var transports = []string{"HandleReader", "HandleReadWriter", "HTTP", "HTTP+gzip"}
 
+// segReader hands its content out in pieces (TCP segments of an HTTP body, websocket frames):
+// sizes follow a seeded pattern that mixes tiny, medium (just under / over the server's 128- and
+// 512-byte buffer sizes) and large reads. What a request means cannot depend on how it was cut up.
+type segReader struct {
+	b    []byte
+	seed uint64
+	n    int
+}
+
+func (s *segReader) Read(p []byte) (int, error) {
+	if len(s.b) == 0 {
+		return 0, io.EOF
+	}
+	s.seed = s.seed*6364136223846793005 + 1442695040888963407
+	sizes := []int{1, 7, 100, 127, 128, 129, 300, 511, 512, 513, 600, 104, 2000}
+	k := sizes[int(s.seed>>33)%len(sizes)]
+	k = min(k, len(s.b), len(p))
+	copy(p, s.b[:k])
+	s.b = s.b[k:]
+	s.n++
+	return k, nil
+}
+
 func runTransport(s *hsrv, tr string, in []byte) (ex execution) {
 	switch tr {
 	case "HandleReader+context-already-cancelled", "HandleReader+context-cancelled-by-first-handler":
@@ -79,6 +102,23 @@ func runTransport(s *hsrv, tr string, in []byte) (ex execution) {
 			return execution{problem: "nil-header", detail: "HandleReader returned a nil http.Header"}
 		}
 		ex.out = out
+	case "HandleReader+segmented":
+		out, hdr, err := s.srv.HandleReader(context.Background(), &segReader{b: in, seed: uint64(len(in))*2654435761 + uint64(in[len(in)/2])})
+		if err != nil {
+			return execution{problem: "handler-error", detail: err.Error()}
+		}
+		if hdr == nil {
+			return execution{problem: "nil-header", detail: "HandleReader returned a nil http.Header"}
+		}
+		ex.out = out
+	case "HTTP+segmented":
+		req := httptest.NewRequest(http.MethodPost, "/", &segReader{b: in, seed: uint64(len(in))*40503 + uint64(in[0])})
+		w := httptest.NewRecorder()
+		s.http.ServeHTTP(w, req)
+		if w.Code != http.StatusOK {
+			return execution{problem: "http-status-" + strconv.Itoa(w.Code), detail: w.Body.String()}
+		}
+		ex.out = append([]byte{}, w.Body.Bytes()...)
 	case "HandleReader":
 		out, hdr, err := s.srv.HandleReader(context.Background(), bytes.NewReader(in))
 		if err != nil {
@@ -249,6 +289,9 @@ func checkInput(r *lib.Run, idx int, cat string, in []byte, pool int, sample boo
 	trs := []string{transports[0], transports[1+idx%3]}
 	if ex.batch || idx%8 == 0 {
 		trs = append(trs, []string{"HandleReader+context-already-cancelled", "HandleReader+context-cancelled-by-first-handler"}[idx/3%2])
+	}
+	if len(in) > 200 {
+		trs = append(trs, []string{"HandleReader+segmented", "HTTP+segmented"}[idx%2])
 	}
 	for _, tr := range trs {
 		e, hung := execute(s, tr, in)
@@ -447,6 +490,108 @@ func websocketPhase(r *lib.Run, nConns, perConn int) {
 		}()
 	}
 	wg.Wait()
+	r.Cases(r.N(24, 200), 0, func(idx int) { websocketSlots(r, idx) })
+}
+
+// websocketSlots: the websocket endpoint admits a bounded number of connections. Whatever arrives
+// at it - plain GET / POST requests, handshakes with a foreign Origin or a bad version, valid
+// clients that connect, talk and leave - a valid client must still be admitted and answered as long
+// as fewer connections than the bound are open ("neither crashes nor hangs ... for every input").
+func websocketSlots(r *lib.Run, idx int) {
+	rng := lib.Rng("C11/ws-slots", uint64(idx))
+	slots := int64(2 + rng.IntN(4))
+	s := newHsrv(2)
+	ws := jsonrpc.NewWebsocket(s.srv, nil, log.NewNopZapLogger()).WithMaxConnections(slots)
+	ts := httptest.NewServer(ws)
+	defer ts.Close()
+	ctx, cancel := context.WithTimeout(context.Background(), hangLimit)
+	defer cancel()
+	open := []*websocket.Conn{}
+	defer func() {
+		for _, c := range open {
+			c.Close(websocket.StatusNormalClosure, "")
+		}
+	}()
+	refused, served := 0, 0
+	probe := func(when string) bool {
+		conn, resp, err := websocket.Dial(ctx, ts.URL, nil) //nolint:bodyclose
+		if err != nil {
+			code := 0
+			if resp != nil {
+				code = resp.StatusCode
+			}
+			r.Violation("websocket:valid-client-refused-although-slots-are-free", idx,
+				fmt.Sprintf("%s: %d of %d connection slots are in use, %d handshakes were refused and %d clients served and gone before; a valid client is turned away (HTTP %d): %v", when, len(open), slots, refused, served, code, err),
+				map[string]any{"slots": slots, "open": len(open), "refused_handshakes_before": refused, "clients_served_before": served})
+			return false
+		}
+		msg := fmt.Sprintf(`{"jsonrpc":"2.0","method":"ping","id":"slot-%d-%d"}`, idx, served)
+		want := fmt.Sprintf(`{"jsonrpc":"2.0","result":"pong","id":"slot-%d-%d"}`, idx, served)
+		if err := conn.Write(ctx, websocket.MessageText, []byte(msg)); err == nil {
+			if _, m, err := conn.Read(ctx); err != nil || string(m) != want {
+				r.Violation("websocket:admitted-client-not-answered", idx, fmt.Sprintf("%s: reply %q err %v", when, m, err), nil)
+			}
+		}
+		conn.Close(websocket.StatusNormalClosure, "")
+		served++
+		s.rec.take()
+		return true
+	}
+	steps := 3*int(slots) + rng.IntN(8)
+	for i := 0; i < steps; i++ {
+		switch x := rng.IntN(10); {
+		case x < 6:
+			// a request that is not (or not an acceptable) websocket handshake
+			var req *http.Request
+			switch rng.IntN(4) {
+			case 0:
+				req, _ = http.NewRequestWithContext(ctx, http.MethodGet, ts.URL, http.NoBody)
+			case 1:
+				req, _ = http.NewRequestWithContext(ctx, http.MethodPost, ts.URL, strings.NewReader(`{"jsonrpc":"2.0","method":"ping","id":1}`))
+			case 2:
+				req, _ = http.NewRequestWithContext(ctx, http.MethodGet, ts.URL, http.NoBody)
+				req.Header.Set("Connection", "Upgrade")
+				req.Header.Set("Upgrade", "websocket")
+				req.Header.Set("Sec-WebSocket-Version", "13")
+				req.Header.Set("Sec-WebSocket-Key", "dGhlIHNhbXBsZSBub25jZQ==")
+				req.Header.Set("Origin", "https://elsewhere.example")
+			default:
+				req, _ = http.NewRequestWithContext(ctx, http.MethodGet, ts.URL, http.NoBody)
+				req.Header.Set("Connection", "Upgrade")
+				req.Header.Set("Upgrade", "websocket")
+				req.Header.Set("Sec-WebSocket-Version", "7")
+				req.Header.Set("Sec-WebSocket-Key", "dGhlIHNhbXBsZSBub25jZQ==")
+			}
+			if resp, err := http.DefaultClient.Do(req); err == nil {
+				if resp.StatusCode == http.StatusSwitchingProtocols {
+					r.Count("websocket_slots.odd_handshake_accepted", 1)
+				} else {
+					refused++
+				}
+				resp.Body.Close()
+			}
+		case x < 8 && int64(len(open)) < slots-1:
+			if conn, _, err := websocket.Dial(ctx, ts.URL, nil); err == nil { //nolint:bodyclose
+				open = append(open, conn) // a client that stays
+			}
+		case x == 8 && len(open) > 0:
+			open[0].Close(websocket.StatusNormalClosure, "")
+			open = open[1:]
+		default:
+			if !probe(fmt.Sprintf("step %d", i)) {
+				return
+			}
+		}
+	}
+	ok := probe("end")
+	r.Eval(steps + 1)
+	r.Count("websocket_slots.scenarios", 1)
+	r.Count("websocket_slots.refused_handshakes", refused)
+	r.Count("websocket_slots.valid_clients_served", served)
+	if ok && refused >= int(slots) {
+		r.Count("websocket_slots.scenarios_with_more_refusals_than_slots", 1)
+	}
+	r.Case(fmt.Sprintf("ws-slots|%d|refused=%d|served=%d", slots, min(refused, 9), min(served, 5)))
 }
 
 func websocketConn(r *lib.Run, c, perConn int) {
